@@ -51,7 +51,7 @@ func (s *vStream) Read(p []byte) (int, error) {
 	return n, nil
 }
 
-type vAddr struct{}
+type vAddr struct{ id int }
 
 func (vAddr) Network() string { return "verif" }
 func (vAddr) String() string  { return "verif-client" }
@@ -64,6 +64,7 @@ type vConn struct {
 	closed      int
 	readsAfterClose int
 	inner       *vConn // the plaintext side of the TLS model
+	id          int
 }
 
 func vNewConn(data []byte) *vConn {
@@ -92,7 +93,7 @@ func (c *vConn) Write(p []byte) (int, error) {
 
 func (c *vConn) Close() error                       { c.closed++; return nil }
 func (c *vConn) LocalAddr() net.Addr                { return vAddr{} }
-func (c *vConn) RemoteAddr() net.Addr               { return vAddr{} }
+func (c *vConn) RemoteAddr() net.Addr               { return vAddr{c.id} }
 func (c *vConn) SetDeadline(t time.Time) error      { return nil }
 func (c *vConn) SetReadDeadline(t time.Time) error  { return nil }
 func (c *vConn) SetWriteDeadline(t time.Time) error { return nil }
